@@ -120,6 +120,7 @@ class ARec:
         self.times = {}           # id(interp) -> [virtual ms at receipt]
         self.clock = lambda: 0.0
         self.trig = {}            # (actor, trigger type) -> times received
+        self.stopped = {}         # id(interp) -> virtual ms at which its stop() completed (first time)
         self.trace = []           # after every step: per-actor status / inbox length / children, registry
         self.drops = 0
         self.ambig = 0
@@ -171,6 +172,10 @@ def build_logic(rec: ARec):
             if str(getattr(event, "type", "")).startswith("xstate.error.actor."):
                 rec.inbox.setdefault(id(interpreter), []).append(ESC_TAG)
                 rec.times.setdefault(id(interpreter), []).append(round(rec.clock(), 3))
+
+        # when an actor stopped, to the instant: a runner thread (sync engine) stops its child BETWEEN two scenario steps
+        def on_interpreter_stop(self, interpreter):
+            rec.stopped.setdefault(id(interpreter), round(rec.clock(), 3))
     esc = EscPlugin()
 
     def hello(interp, ctx, ev, ad):
@@ -329,7 +334,7 @@ def run_sync(steps, max_iter=None):
             si.time = old_time
             _detach(h)
     return dict(snaps=snaps, trace=rec.trace, inbox=[list(zip(rec.inbox.get(id(a), []), rec.times.get(id(a), []))) for a in rec.actors],
-                self_forward=any(v > 1 for v in rec.trig.values()))
+                self_forward=any(v > 1 for v in rec.trig.values()), stopped=[rec.stopped.get(id(a)) for a in rec.actors])
 
 
 def run_async(steps, max_iter=None):
@@ -396,7 +401,7 @@ def run_async(steps, max_iter=None):
             pass
         _detach(h)
     return dict(snaps=snaps, trace=rec.trace, inbox=[list(zip(rec.inbox.get(id(a), []), rec.times.get(id(a), []))) for a in rec.actors],
-                self_forward=any(v > 1 for v in rec.trig.values()))
+                self_forward=any(v > 1 for v in rec.trig.values()), stopped=[rec.stopped.get(id(a)) for a in rec.actors])
 
 
 def run_impl_case(args):
